@@ -37,7 +37,14 @@ namespace zoo {
             ++visited;
          }
          if (visited != n) c.probe.bad.push_back({ c.probe.current_accessor, "iteration visited " + std::to_string(visited) + " elements of " + std::to_string(n) });
-         for (std::size_t idx : { n, n + 1, n + 2, std::size_t(-1), std::size_t(-1) / 2, (std::size_t(1) << 32) + n }) {
+         // at and beyond size(); the extremes; and positions whose low 8 / 16 / 31 / 32 / 33 bits fall back into range
+         std::vector<std::size_t> beyond{ n, n + 1, n + 2, std::size_t(-1), std::size_t(-1) / 2, (std::size_t(1) << 32) + n };
+         for (int bits : { 8, 16, 31, 32, 33, 48, 63 }) {
+            const std::size_t base = std::size_t(1) << bits;
+            if (base >= n) { beyond.push_back(base); if (n > 0) beyond.push_back(base + n - 1); beyond.push_back(base * 2 + (n > 1 ? 1 : 0)); }
+         }
+         for (std::size_t idx : beyond) {
+            if (idx < n) continue;
             ++c.probe.calls;
             try {
                (void) &*s.position(idx);
@@ -57,7 +64,14 @@ namespace zoo {
    std::string render(Ctx& c, const T& v)
    {
       using U = std::remove_cvref_t<T>;
-      if constexpr (std::is_base_of_v<ipr::Node, U>) return c.name_of(v);
+      if constexpr (std::is_base_of_v<ipr::Node, U>) {
+         // an accessor whose return type is a leaf interface must hand out a node of that very category (C14: a reference
+         // bound to a node of another kind is undefined behaviour waiting for the first virtual call)
+         if constexpr (requires { leaf_of<U>::value; })
+            if (v.category != leaf_code[leaf_of<U>::value])
+               c.probe.bad.push_back({ c.probe.current_accessor, std::string("returned a node of category ") + std::to_string(int(v.category)) + " through a reference to " + leaf_name[leaf_of<U>::value] });
+         return c.name_of(v);
+      }
       else if constexpr (std::is_enum_v<U>) return std::to_string(static_cast<long long>(static_cast<std::underlying_type_t<U>>(v)));
       else if constexpr (std::is_same_v<U, bool>) return v ? "T" : "F";
       else if constexpr (std::is_integral_v<U>) return std::to_string(v);
